@@ -329,6 +329,18 @@ impl Prop for C08 {
         ] {
             push("graph", lab.to_string(), module(body), "both");
         }
+        // ---- family 5a': permitted alphabets over the 65 k-character tables (work must stay proportional to the input)
+        {
+            let long: String = (0..40).map(|_| "abcdefghij").collect();
+            for (lab, body) in [
+                ("alphabet-wide:range-union", "A ::= BMPString (SIZE (1..4) ^ FROM (\"c\"..\"\u{20ac}\" | \"0\"))".to_string()),
+                ("alphabet-wide:range", "A ::= UniversalString (FROM (\"a\"..\"\u{ffee}\"))".to_string()),
+                ("alphabet-wide:long-string", format!("A ::= BMPString (FROM (\"{long}\"))")),
+                ("alphabet-wide:long-string-universal", format!("A ::= SEQUENCE {{ f UniversalString (FROM (\"{long}\" | \"0\"..\"9\")) }}")),
+            ] {
+                push("graph", lab.to_string(), module(&body), "both");
+            }
+        }
         // ---- family 5b: nesting depth
         let dmax: usize = if tier.thorough() { 65536 } else { 1024 };
         let mut d = 1usize;
